@@ -9,7 +9,7 @@
    is assumed unless written), all operations and all arguments. *)
 From Coq Require Import List NArith Bool.
 From FIM Require Import Model.T8Graph Model.T8Ops Proofs.T8Frame Proofs.T8Query Proofs.T8Sound Proofs.T8SoundTop
-     Proofs.T8Complete Proofs.T8Closed Proofs.T8Top Proofs.T8Owned Proofs.T8Handles Proofs.T8Witness.
+     Proofs.T8Complete Proofs.T8Closed Proofs.T8Top Proofs.T8Owned Proofs.T8Handles Proofs.T8Fixed Proofs.T8Witness.
 Import ListNotations.
 
 (* ================= "leaves every other element, property and connection exactly as it was" ============ *)
@@ -79,38 +79,34 @@ Theorem C08_two_ended_links_deleted : forall ex o cs g r g' tr,
 Proof. exact links2_exec. Qed.
 Print Assumptions C08_two_ended_links_deleted.
 
-(* "... the service-side port": FULL STATEMENT (false of the code):
-     forall ex o cs g r g' tr, run (exec ex o cs) g = (inl r, (g', tr)) ->
-       forall l i sp, link2 g l i sp -> type_of g sp = T_ServicePort -> In i tr -> In sp tr.
-   Witness: G1, remove_node n1 - the connected sub-interface 6 and its link 17 go, service port 16 stays
-   (the disconnect loops only visit first-level interfaces; the same holds for Node.remove_network_service,
-   Topology.remove_network_service on peered services, remove_child_interface, prune). *)
-Theorem C08_artefact_ports_deleted_refuted :
-  exists g nm r g' tr l i sp,
-    run (exec true (ORemoveNode nm) []) g = (inl r, (g', tr)) /\
-    link2 g l i sp /\ type_of g sp = T_ServicePort /\ In i tr /\ ~ In sp tr.
-Proof. exact artefact_ports_deleted_refuted. Qed.
-Print Assumptions C08_artefact_ports_deleted_refuted.
+(* "... the service-side port": the ServicePort across a two-ended link from ANY interface the operation
+   disconnects - the interfaces of the removed node / facility / switch / component and the sub-interfaces of
+   their dedicated ports, the removed sub-interface, the disconnected interface (`disc_ifs`) - is deleted.
+   (Refuted before fix edd75a8 for sub-interfaces; holds of the repaired code, all graphs.)
+   NOT claimed for Node/Topology.remove_network_service and prune: they never disconnect (known finding). *)
+Theorem C08_artefact_ports_deleted : forall ex o cs g r g' tr,
+  run (exec ex o cs) g = (inl r, (g', tr)) ->
+  forall ii l sp, disc_ifs g o ii -> link2 g l ii sp -> type_of g sp = T_ServicePort -> In sp tr.
+Proof. exact artefact_ports_deleted. Qed.
+Print Assumptions C08_artefact_ports_deleted.
 
-(* what IS proved about service-side ports: disconnect_interface and unpeer delete them
-   (C08_addressed_element_deleted_partial with targets g (ODisconnect _ i) = the peer of i,
-   targets g (OUnpeer a b) = the two path ends), and C08_nothing_else_deleted bounds the rest. *)
+(* unpeer of two services not joined by service - port - link - port - service (four `connects` edges) raises and
+   deletes nothing, for every graph (refuted before fix 13b815d) *)
+Theorem C08_unpeer_only_peered : forall ex a b cs g r g' tr,
+  run (exec ex (OUnpeer a b) cs) g = (r, (g', tr)) ->
+  (forall x m y, In x (cn g a) -> In m (cn g x) -> In y (cn g m) -> ~ In b (cn g y)) ->
+  (exists e, r = inr e) /\ tr = [] /\ g' = g.
+Proof. exact unpeer_only_peered. Qed.
+Print Assumptions C08_unpeer_only_peered.
 
-(* FULL STATEMENT (false): unpeer a b with no link between a port of a and a port of b deletes nothing. *)
-Theorem C08_unpeer_only_peered_refuted :
-  exists g a b,
-    (forall p, In p (cpn g a) -> forall l, In l (lks g p) -> forall q, In q (cpn g l) -> ~ In q (cpn g b)) /\
-    fst (run (exec true (OUnpeer a b) [[3]; [9]]) g) = inl [[]; []] /\
-    trace_of (run (exec true (OUnpeer a b) [[3]; [9]]) g) = [3; 4; 8; 9]%N.
-Proof. exact unpeer_only_peered_refuted. Qed.
-Print Assumptions C08_unpeer_only_peered_refuted.
-
-(* FULL STATEMENT (false): the connection point disconnect_interface deletes is a ServicePort. *)
-Theorem C08_disconnect_only_service_port_refuted :
-  exists g s i x, In x (snd (snd (run (exec true (ODisconnect s i) [[]]) g))) /\
-                  class_of g x = CCP /\ type_of g x <> T_ServicePort.
-Proof. exact disconnect_only_service_port_refuted. Qed.
-Print Assumptions C08_disconnect_only_service_port_refuted.
+(* everything disconnect_interface deletes is a ServicePort peering with the interface, a connection point
+   next to that port, or a link attached to them; every outcome, every graph (refuted before fix 13b815d) *)
+Theorem C08_disconnect_only_service_port : forall ex s i cs g r g' tr,
+  run (exec ex (ODisconnect s i) cs) g = (r, (g', tr)) ->
+  forall x, In x tr ->
+  exists p, In p (peer_cps g i) /\ type_of g p = T_ServicePort /\ U_cp g p true x.
+Proof. exact disconnect_only_service_port. Qed.
+Print Assumptions C08_disconnect_only_service_port.
 
 (* ================= handles: "report the same interfaces as a freshly looked-up handle" ================ *)
 
@@ -120,7 +116,7 @@ Theorem C08_handles_disconnect : forall ex s i c g cs' g' tr,
   run (exec ex (ODisconnect s i) [c]) g = (inl cs', (g', tr)) ->
   class_of g s = CNS ->
   same c (cpn g s) ->
-  (forall x, get_peers g i = Some [x] -> cpn g x = []) ->
+  (forall x, get_peers_typed g i T_ServicePort = Some [x] -> cpn g x = []) ->
   exists c', cs' = [c'] /\ same c' (cpn g' s).
 Proof. exact handles_disconnect. Qed.
 Print Assumptions C08_handles_disconnect.
@@ -138,20 +134,28 @@ Theorem C08_handles_unpeer : forall ex a b ca cb g cs' g' tr,
 Proof. exact handles_unpeer. Qed.
 Print Assumptions C08_handles_unpeer.
 
-(* FULL STATEMENT (false) for remove_interface and remove_child_interface: the handle's list is not updated *)
-Theorem C08_handles_remove_interface_refuted :
-  exists g s nm c, same c (cpn g s) /\
-    exists c' g' tr, run (exec false (ORemoveInterface s nm) [c]) g = (inl [c'], (g', tr)) /\ ~ same c' (cpn g' s).
-Proof. exact handles_remove_interface_refuted. Qed.
-Print Assumptions C08_handles_remove_interface_refuted.
+(* remove_interface (refuted before fix 4c6e5fb).  Hypothesis: no two ports of the service are next to each other *)
+Theorem C08_handles_remove_interface : forall ex s nm c g cs' g' tr,
+  run (exec ex (ORemoveInterface s nm) [c]) g = (inl cs', (g', tr)) ->
+  class_of g s = CNS ->
+  same c (cpn g s) ->
+  (forall i y, In i (cpn g s) -> In y (cpn g s) -> ~ In y (cpn g i)) ->
+  exists c', cs' = [c'] /\ same c' (cpn g' s).
+Proof. exact handles_remove_interface. Qed.
+Print Assumptions C08_handles_remove_interface.
 
-Theorem C08_handles_remove_child_refuted :
-  exists g p nm c, same c (cpn g p) /\
-    exists c' g' tr, run (exec true (ORemoveChild p nm) [c]) g = (inl [c'], (g', tr)) /\ ~ same c' (cpn g' p).
-Proof. exact handles_remove_child_refuted. Qed.
-Print Assumptions C08_handles_remove_child_refuted.
+(* remove_child_interface (refuted before 4c6e5fb).  Hypotheses: the port is not next to itself; a peer of one of
+   its sub-interfaces has no neighbouring connection point and is neither the port nor one of its sub-interfaces *)
+Theorem C08_handles_remove_child : forall ex p nm c g cs' g' tr,
+  run (exec ex (ORemoveChild p nm) [c]) g = (inl cs', (g', tr)) ->
+  same c (cpn g p) ->
+  ~ In p (cpn g p) ->
+  (forall i x, In i (cpn g p) -> In x (peer_cps g i) -> cpn g x = [] /\ x <> p /\ ~ In x (cpn g p)) ->
+  exists c', cs' = [c'] /\ same c' (cpn g' p).
+Proof. exact handles_remove_child. Qed.
+Print Assumptions C08_handles_remove_child.
 
-(* what holds for every operation instead (`_partial`: the hypothesis-free part of the handle claim): a fresh
+(* and for every operation (`_partial`: the hypothesis-free part of the handle claim): a fresh
    look-up of a surviving handle reports exactly the old interfaces that survive *)
 Theorem C08_handles_fresh_is_filtered_partial : forall ex o cs g r g' tr s,
   run (exec ex o cs) g = (r, (g', tr)) -> ~ In s tr ->
@@ -167,7 +171,7 @@ Example C08_nonvacuous_remove_node :
 Proof. split; [apply ex_remove_node_n2|]. split; [apply ex_remove_node_n2|]. split; [exact link2_G1_15 | exact sole_G1_5_6]. Qed.
 
 Example C08_nonvacuous_disconnect :
-  class_of G1 7 = CNS /\ sortN (cpn G1 7) = [8; 14; 16]%N /\ get_peers G1 13 = Some [14%N] /\ cpn G1 14 = [] /\
+  class_of G1 7 = CNS /\ sortN (cpn G1 7) = [8; 14; 16]%N /\ get_peers_typed G1 13 T_ServicePort = Some [14%N] /\ cpn G1 14 = [] /\
   ok_of (run (exec true (ODisconnect 7 13) [[8; 14; 16]%N]) G1) = true /\
   trace_of (run (exec true (ODisconnect 7 13) [[8; 14; 16]%N]) G1) = [14; 15]%N.
 Proof. exact ex_disconnect_hyps. Qed.
@@ -178,3 +182,26 @@ Example C08_nonvacuous_unpeer :
   fst (run (exec true (OUnpeer 1 2) [[3%N]; [4%N]]) G2) = inl [[]; []] /\
   trace_of (run (exec true (OUnpeer 1 2) [[3%N]; [4%N]]) G2) = [3; 4; 5]%N.
 Proof. exact ex_unpeer_hyps. Qed.
+
+(* the connected sub-interface 6 of n1 is one of the disconnected interfaces; its service port 16 goes *)
+Example C08_nonvacuous_artefact :
+  ok_of (run (exec true (ORemoveNode 1) []) G1) = true /\
+  trace_of (run (exec true (ORemoveNode 1) []) G1) = [1; 2; 3; 4; 5; 6; 8; 9; 16; 17]%N /\
+  sortN (disc_list G1 (node_interface_list G1 1)) = [4; 5; 6]%N /\ topo_nodes G1 1 = [1%N] /\
+  type_of G1 16 = T_ServicePort /\ link2 G1 17 6 16.
+Proof. repeat (split; [apply ex_remove_node_n1|]). exact link2_G1_17. Qed.
+
+Example C08_nonvacuous_not_peered :
+  (forall x m y, In x (cn G3 1) -> In m (cn G3 x) -> In y (cn G3 m) -> ~ In 2%N (cn G3 y)) /\
+  fst (run (exec true (OUnpeer 1 2) [[3%N]; [9%N]]) G3) = inr ETopology.
+Proof. split; [exact G3_not_peered | apply ex_unpeer_not_peered]. Qed.
+
+Example C08_nonvacuous_handles_remove :
+  class_of G5 1 = CNS /\ cpn G5 1 = [2%N] /\ cpn G5 2 = [] /\
+  fst (run (exec false (ORemoveInterface 1 7) [[2%N]]) G5) = inl [[]] /\
+  cpn G6 1 = [2%N] /\ peer_cps G6 2 = [] /\
+  fst (run (exec true (ORemoveChild 1 7) [[2%N]]) G6) = inl [[]].
+Proof.
+  destruct ex_remove_interface_handle as [A [B [C D]]]. destruct ex_remove_child_handle as [E [F G]].
+  repeat split; assumption.
+Qed.
